@@ -4,6 +4,7 @@ import Proofs.Decoders
 import Proofs.Syndrome
 import Mathlib.Tactic.LinearCombination
 import Mathlib.Tactic.Ring
+import Mathlib.Algebra.CharP.Lemmas
 
 /-! # Berlekamp–Massey decoder: what can be said for every code word -/
 namespace BMProofs
@@ -808,6 +809,29 @@ theorem locate_exact {c : BchInst} (f : OkFacts c) [Good c.P] (E : Finset Nat) (
       refine ⟨j, hjE, ?_⟩
       rw [add_eq_zero_char2 hchar, eq_comm, root_iff f j j hjn hjn]
   exact this
+
+
+/-- **conjugacy of the syndromes of a binary word**: `S_{2i} = S_i²` (Frobenius in characteristic 2) — the even-indexed syndromes carry no
+information beyond the odd-indexed ones -/
+theorem syndAt_double {c : BchInst} (f : OkFacts c) (r i : Nat) :
+    syndAt c.P c.n r (2 * i) = GF2m.fmul c.P (syndAt c.P c.n r i) (syndAt c.P c.n r i) := by
+  have := f.good
+  have hs : ∀ j, syndAt c.P c.n r j = (bitSum (alpha f ^ j) r c.n).val := by
+    intro j
+    unfold syndAt
+    have e : fpow c.P 2 j = (alpha f ^ j).val := Field18.fpow_model_eq (alpha f) j
+    simp only [e]
+    exact foldl_eq_bitSum (alpha f ^ j) r c.n
+  have key : bitSum (alpha f ^ (2 * i)) r c.n = bitSum (alpha f ^ i) r c.n * bitSum (alpha f ^ i) r c.n := by
+    unfold bitSum
+    have : Fact (Nat.Prime 2) := ⟨Nat.prime_two⟩
+    rw [← pow_two, sum_pow_char 2]
+    apply Finset.sum_congr rfl
+    intro j _
+    split
+    · rw [← pow_mul, ← pow_mul, ← pow_mul]; congr 1; ring
+    · rw [zero_pow (by decide)]
+  rw [hs, hs, Field18.fmul_model_eq, key]
 
 
 end BMProofs
